@@ -245,9 +245,17 @@ type UnitResult struct {
 	Detached  []string
 	RetPC     string // path condition of reaching a return (for the vacuity guard)
 	Vacuous   string // non-empty: the assumptions at the return are contradictory (solver name)
+	RetSites  []RetSite // every return statement of the function with its path condition (cover checks)
+	DeadRets  []string  // return statements whose path condition is unsatisfiable under the collected facts
 	HasCon    bool
 	Seconds   float64
 	engine    *Engine
+}
+
+// RetSite is one return statement of a verified function.
+type RetSite struct {
+	PC    string
+	Where string
 }
 
 // verifyUnit generates the obligations of fn (contract if any, otherwise the implicit safety contract).
@@ -367,7 +375,15 @@ func (w *World) verifyUnit(fn *ssa.Function, defaultSafety []string) *UnitResult
 			}
 		}
 	}
-	res := &UnitResult{Fn: fn, Key: funcKey(fn), Pkg: w.pkgOf(fn).Pkg.Name(), Detached: e.detached, RetPC: rpc, Obs: e.obs, Unsupp: e.unsupp, Unmod: e.unmod, Inlined: e.inlined,
+	var sites []RetSite
+	for _, r := range fr.rets {
+		if r.pc == "false" {
+			continue
+		}
+		p := w.prog.Fset.Position(r.pos)
+		sites = append(sites, RetSite{PC: r.pc, Where: fmt.Sprintf("%s:%d", filepath.Base(p.Filename), p.Line)})
+	}
+	res := &UnitResult{Fn: fn, Key: funcKey(fn), RetSites: sites, Pkg: w.pkgOf(fn).Pkg.Name(), Detached: e.detached, RetPC: rpc, Obs: e.obs, Unsupp: e.unsupp, Unmod: e.unmod, Inlined: e.inlined,
 		Trusted: e.trusted, Imprecise: e.imprecise, SpecErrs: e.specErrs, HasCon: con != nil, engine: e}
 	// stable obligation names
 	seen := map[string]int{}
